@@ -108,7 +108,7 @@ protected:
             // Otherwise, go to the next iteration and try a new random vector
             if (ortho_err < m_eps * fnorm)
             {
-                SPECTRA_VERIF_EVENT("expand_basis", *this);
+                SPECTRA_VERIF_EVENT_N("expand_basis", *this, V.cols());
                 return;
             }
         }
